@@ -101,7 +101,12 @@ ConsumerComplaints(e) ==
   \cup When(e.ev = "read" /\ e.got # e.req, {<<"C03", "Read delivered bytes other than the consumable prefix">>})
 
 Step(e) ==
-  IF e.panic # "" THEN
+  IF e.ev = "bad_backfill" THEN
+      \* a backfill of the wrong size must panic and change nothing: the placeholder stays pending (for ever)
+      IF e.skip = 1 THEN [w |-> WithLens(w, e), bad |-> Observe(w, e)]
+      ELSE [w |-> WithLens(w, e),
+            bad |-> When(e.panic = "", {<<"C04", "a backfill of the wrong size did not panic">>}) \cup Observe(w, e)]
+  ELSE IF e.panic # "" THEN
       [w |-> w, bad |-> {<<IF e.ev \in {"register", "backfill"} THEN "C04"
                             ELSE IF e.ev \in {"clone", "take"} THEN "C20" ELSE "C03",
                            "panic on a valid operation sequence (" \o e.ev \o "): " \o e.panic>>}]
